@@ -164,4 +164,54 @@ theorem caller_slice_and_arrays (next : Nat) (nArr nFrame : Nat) :
     intro b hb; have := o0.2 b hb; simpa [s0, create] using this)
   exact ⟨release_all _ _ o1.1, release_all_any_order _ _ _ (List.reverse_perm _).symm o1.1⟩
 
+/-! ### adding to a reader-built (owning) container
+
+Ownership is one flag per container.  What the caller adds by reference to a slice the *reader*
+built (a value array as a property, a caller-built column slice as a column) is released with
+that slice: the container adopts it, and the caller's list of things to release loses it.  The
+history "add, destroy the slice, destroy what I added" is therefore a double release — stated
+here so that the rule the harness follows (`radd`) is part of the model. -/
+
+/-- the reader-built container after an addition: it owns the added element's blocks too -/
+def adopt (container elem : Root) : Root := ⟨container.blocks ++ elem.blocks⟩
+
+theorem adopt_owned (h : Heap) (c e : Root) (rest : List Root) (ho : Owned h (c :: e :: rest)) :
+    Owned h (adopt c e :: rest) := by
+  refine ⟨?_, ?_, ho.hnodup⟩
+  · have := ho.nodup
+    simpa [adopt, List.flatMap_cons, List.append_assoc] using this
+  · intro b
+    have := ho.cover b
+    simpa [adopt, List.flatMap_cons, List.append_assoc] using this
+
+/-- after the addition, releasing the container and the caller's other roots — each once, in any
+    order — frees everything, the added element included -/
+theorem adopted_released_with_container (h : Heap) (c e : Root) (rest order : List Root)
+    (ho : Owned h (c :: e :: rest)) (hp : (adopt c e :: rest).Perm order) : releaseAll h order = some [] :=
+  release_all_any_order h _ order hp (adopt_owned h c e rest ho)
+
+/-- ... and releasing the added element once more afterwards is a double free -/
+theorem adopted_released_again (h : Heap) (c e : Root) (rest : List Root) (ho : Owned h (c :: e :: rest))
+    (hne : e.blocks ≠ []) : ∀ h', release h (adopt c e) = some h' → release h' e = none := by
+  intro h' hr
+  obtain ⟨h'', h1, h2⟩ := release_one h (adopt c e) rest (adopt_owned h c e rest ho)
+  rw [h1] at hr
+  have hh : h'' = h' := by simpa using hr
+  subst hh
+  obtain ⟨b, hb⟩ := List.exists_mem_of_ne_nil _ hne
+  have hnd := (adopt_owned h c e rest ho).nodup
+  simp only [List.flatMap_cons] at hnd
+  rw [List.nodup_append] at hnd
+  have hba : b ∈ (adopt c e).blocks := by simp [adopt, hb]
+  have : b ∉ h'' := by
+    intro hbh
+    have := (h2.cover b).mp hbh
+    exact hnd.2.2 b hba b this rfl
+  have hall : ¬ (e.blocks.all (fun b => h''.contains b) = true) := by
+    rw [List.all_eq_true]; intro hc
+    have := hc b hb
+    simp only [List.contains_iff_mem, decide_eq_true_eq] at this
+    contradiction
+  unfold release; rw [if_neg hall]
+
 end Sbdf.C12
